@@ -172,7 +172,7 @@ func TestC17(t *testing.T) {
 	report(t, r2)
 	// (3) end to end: the double-quoted spelling under the option returns what the backtick spelling returns without it;
 	// literal contents reach the engine untouched; Wrapped == passing {"root": input}
-	r3 := &result{Property: "C17", Name: "options-preserve-meaning", Bound: "identifier/literal contents over a fixed list of 12 awkward strings x 4 query shapes"}
+	r3 := &result{Property: "C17", Name: "options-preserve-meaning", Bound: "identifier/literal contents over a fixed list of 12 awkward strings x 4 query shapes; Wrapped() against an explicit root for 7 queries (flat, derived table, CTE, UNION, subquery, EXISTS, join)"}
 	var doc map[string]any
 	json.Unmarshal([]byte(`{"t":[{"name":"é","v":1,"a b":2,"x":"it's"},{"name":"a\"b","v":2,"a b":3,"x":"[1]"},{"name":"p[0]","v":3,"a b":4,"x":"\\"}]}`), &doc)
 	lits := []string{"é", "a\"b", "p[0]", "it''s", "\\\\", "[1]", "`", "a b", "]", "[", "x", "\xe2\x82\xac"}
@@ -201,11 +201,22 @@ func TestC17(t *testing.T) {
 			r3.violate("%q under IdiomaticArrays: %s (%v); ARRAY spelling: %s (%v)", q, a, errA, b, errB)
 		}
 	}
-	r3.Cases++
-	a, errA := run(doc, "SELECT v FROM `root.t` WHERE v > 1", genql.Wrapped())
-	b, errB := run(map[string]any{"root": doc}, "SELECT v FROM `root.t` WHERE v > 1")
-	if errA != nil || errB != nil || a != b {
-		r3.violate("Wrapped: %s (%v) vs explicit root: %s (%v)", a, errA, b, errB)
+	// Wrapped() == passing {"root": input}, for flat queries and for every kind of nested query
+	for _, q := range []string{
+		"SELECT v FROM `root.t` WHERE v > 1",
+		"SELECT q.v FROM (SELECT v, name FROM `root.t` WHERE v > 1) q",
+		"WITH big AS (SELECT v FROM `root.t` WHERE v >= 2) SELECT v FROM big",
+		"SELECT v FROM `root.t` WHERE v = 1 UNION ALL SELECT v FROM `root.t` WHERE v = 3",
+		"SELECT v, (SELECT name FROM `<-root.t` WHERE v = 1) AS s FROM `root.t`",
+		"SELECT v FROM `root.t` WHERE EXISTS (SELECT name FROM `<-root.t` WHERE v > 2)",
+		"SELECT x.v, y.v AS w FROM `root.t` x JOIN `root.t` y ON x.v = y.v ORDER BY v",
+	} {
+		r3.Cases++
+		a, errA := run(doc, q, genql.Wrapped())
+		b, errB := run(map[string]any{"root": doc}, q)
+		if errA != nil || errB != nil || a != b {
+			r3.violateClass("wrapped", "%q with Wrapped(): %s (%v); with an explicit root: %s (%v)", q, a, errA, b, errB)
+		}
 	}
 	report(t, r3)
 }
